@@ -149,6 +149,18 @@ func (c *CEnv) eval(e *CExpr) Val {
 		return Val{T: tFalse, Ty: tyBool}
 	case "id":
 		return c.evalIdent(e)
+	case "unbox", "hastype":
+		h := c.eval(e.Args[0])
+		ty := c.cty(e.Vars[0].Type)
+		key := boxKey(ty)
+		if h.Ty.K != TOpaque || key == "" {
+			c.errf(e, "%s: an interface value and a plain basic or slice type expected", e.Kind)
+		}
+		sort := x.w.sortOf(ty, x.model)
+		if e.Kind == "hastype" {
+			return Val{T: x.dynTypeIs(h.T, key, sort), Ty: tyBool}
+		}
+		return Val{T: x.unboxed(h.T, key, sort), Ty: ty}
 	case "old":
 		if c.old == nil {
 			c.errf(e, "old() not available here")
